@@ -617,7 +617,7 @@ def x3r_by_value_reader(text, log):
     the parameter becomes `reader: &mut VSource`, `&mut reader` / `reader.by_ref()` become
     the reborrow `&mut *reader` (`impl Read for &mut R` forwards)."""
     t2 = re.sub(r"<\s*R\s*:\s*Read(?:\s*\+\s*Seek)?\s*>", "", text)
-    t2 = re.sub(r"\bmut reader\s*:\s*R\b", "reader: &mut VSource", t2)
+    t2 = re.sub(r"\b(?:mut )?reader\s*:\s*R\b", "reader: &mut VSource", t2)
     # read_exact into a local declared as [u8; 16]: the prelude method for that array type
     for arr in re.findall(r"let mut ([a-z_][a-z0-9_]*): \[u8; 16\]", t2):
         t2 = t2.replace("reader.read_exact(&mut %s)" % arr, "reader.read_exact16(&mut %s)" % arr)
